@@ -205,6 +205,15 @@ pub fn analyse(xs: &[f64], ys: &[f64]) -> Result<Analysis, Fail> {
     if let Some(c) = pw.segments.iter().flat_map(|s| s.poly.0.iter()).find(|c| !c.is_finite()) {
         return Err(Fail::new("constrained_spline returned a non-finite coefficient for finite, strictly increasing knots", detail(xs, ys, json!({"coefficient": fj(*c), "returned_cubics": pw.segments.iter().map(|s| fjs(&s.poly.0)).collect::<Vec<_>>()}))));
     }
+    // the same knots in a slice that sits at an address 8 (mod 16) (not a Vec's buffer): the result must not depend on it
+    {
+        let placed = Placed::new(&knots);
+        let pw2 = guard(|| constrained_spline(placed.slice())).map_err(|p| Fail::new(format!("constrained_spline panicked on a knot slice placed at an address 8 (mod 16): {p}"), detail(xs, ys, json!(p))))?;
+        let same = pw2.segments.len() == pw.segments.len() && pw2.segments.iter().zip(&pw.segments).all(|(a, b)| a.end.to_bits() == b.end.to_bits() && all_bits_eq(&a.poly.0, &b.poly.0));
+        if !same {
+            return Err(Fail::new("constrained_spline's result depends on where the knot slice sits in memory (address 8 mod 16 against a Vec's buffer)", detail(xs, ys, json!({"from_vec": pw.segments.iter().map(|s| fjs(&s.poly.0)).collect::<Vec<_>>(), "from_placed_slice": pw2.segments.iter().map(|s| fjs(&s.poly.0)).collect::<Vec<_>>()}))));
+        }
+    }
     let qx: Vec<Q> = xs.iter().map(|&x| q(x)).collect();
     let qy: Vec<Q> = ys.iter().map(|&y| q(y)).collect();
     let (secants, slopes) = exact_kruger(&qx, &qy);
